@@ -484,6 +484,11 @@ func (s *Server) routeValidate(w http.ResponseWriter, r *http.Request) {
 		if sep != "" {
 			f.Name = filepath.Join(strings.Split(f.Name, sep)...)
 		}
+		if !isLocalName(f.Name, false) {
+			log.Debug("STS validate request rejected: file name outside the source's directories", f.Name)
+			w.WriteHeader(http.StatusBadRequest)
+			return
+		}
 		respMap[f.Name] = gateKeeper.GetFileStatus(f.GetName(), f.GetStarted())
 	}
 	respJSON, _ := json.Marshal(respMap)
@@ -492,6 +497,24 @@ func (s *Server) routeValidate(w http.ResponseWriter, r *http.Request) {
 	if err := s.respond(w, http.StatusOK, respJSON); err != nil {
 		log.Error(err.Error())
 	}
+}
+
+// isLocalName reports whether a file name supplied by a client stays below the
+// directory it gets joined to: no absolute path, no way out through "..", and
+// not the directory itself.
+func isLocalName(name string, allowEmpty bool) bool {
+	if name == "" {
+		return allowEmpty
+	}
+	return filepath.IsLocal(name) && filepath.Clean(name) != "."
+}
+
+// hasLocalNames checks the names a part carries: the file itself, its
+// predecessor and its rename target.
+func hasLocalNames(part sts.Binned) bool {
+	return isLocalName(part.GetName(), false) &&
+		isLocalName(part.GetPrev(), true) &&
+		isLocalName(part.GetRenamed(), true)
 }
 
 func (s *Server) routeData(w http.ResponseWriter, r *http.Request) {
@@ -535,6 +558,13 @@ func (s *Server) routeData(w http.ResponseWriter, r *http.Request) {
 		return
 	}
 	parts := decoder.GetParts()
+	for _, part := range parts {
+		if !hasLocalNames(part) {
+			log.Debug("STS data request rejected: file name outside the source's directories", part.GetName())
+			w.WriteHeader(http.StatusBadRequest)
+			return
+		}
+	}
 	gateKeeper := s.getGateKeeper(r)
 	gateKeeper.Prepare(parts)
 	index := 0
@@ -611,6 +641,13 @@ func (s *Server) routeDataRecovery(w http.ResponseWriter, r *http.Request) {
 	}
 	gateKeeper := s.getGateKeeper(r)
 	parts := decoder.GetParts()
+	for _, part := range parts {
+		if !hasLocalNames(part) {
+			log.Debug("STS data-recovery request rejected: file name outside the source's directories", part.GetName())
+			w.WriteHeader(http.StatusBadRequest)
+			return
+		}
+	}
 	n := gateKeeper.Received(parts)
 	log.Debug("STS data-recovery request complete:", "source=", source, "partsReceived=", n)
 	w.Header().Add(HeaderPartCount, strconv.Itoa(n))
